@@ -370,6 +370,48 @@ impl Transaction {
         Ok(())
     }
 
+    /// Rejects a staged Proposition whose tuple another Proposition already is
+    /// (§59: one Space keeps one canonical Proposition per semantic tuple).
+    ///
+    /// The unique `tuple_key` index enforces the same rule, but only when the
+    /// row is written — in the middle of the write loop, after earlier rows of
+    /// the statement are already durable. Two clauses of one statement that
+    /// each create the same not-yet-existing tuple get past `ENSURE
+    /// PROPOSITION`'s lookup (it sees committed rows only), so the conflict is
+    /// looked for here, before the first write, like a Concept's logical key.
+    async fn check_proposition_tuple_identity(&self) -> Result<(), KipError> {
+        let mut claimed: Vec<&str> = Vec::new();
+        for (id, staged) in &self.staged {
+            let Element::Proposition(row) = &staged.row else {
+                continue;
+            };
+            if !staged.changed {
+                continue;
+            }
+            let conflict = |holder: &str| {
+                KipError::new(
+                    KipErrorCode::IdentityConflict,
+                    format!(
+                        "the tuple of {id} already is {holder}; one Space keeps one Proposition \
+                         per semantic tuple"
+                    ),
+                )
+            };
+            if claimed.contains(&row.tuple_key.as_str()) {
+                return Err(conflict("another Proposition in this transaction"));
+            }
+            claimed.push(row.tuple_key.as_str());
+            if let Some(found) = self.store.find_proposition(&row.tuple_key).await?
+                && found._id != id.seq
+            {
+                return Err(conflict(
+                    &ElementId::new(ElementKind::Proposition, found._id).to_string(),
+                ));
+            }
+        }
+        Ok(())
+    }
+
     /// Loads an existing element for modification, or returns the staged copy.
     ///
     /// Read-your-writes inside the transaction (§27): a clause that reads an
@@ -824,7 +866,8 @@ impl Transaction {
     async fn check_before_write(&mut self) -> Result<(), KipError> {
         self.propagate_governance().await?;
         self.check_reference_closure().await?;
-        self.check_concept_key_identity().await
+        self.check_concept_key_identity().await?;
+        self.check_proposition_tuple_identity().await
     }
 
     /// Abandons everything staged, removing the shells this run minted.
